@@ -36,11 +36,35 @@ type TrackSecret struct {
 }
 
 // TrackFactory creates TrackSecrets with deterministic "random" bytes.
-type TrackFactory struct {
-	Secrets  []*TrackSecret
-	counter  uint64
+// KeyRegistry gives key material an identity shared by several factories.
+type KeyRegistry struct {
 	keyIDs   map[string]int
 	KeyBytes map[int][]byte
+	counter  uint64
+}
+
+func NewKeyRegistry() *KeyRegistry {
+	return &KeyRegistry{keyIDs: map[string]int{}, KeyBytes: map[int][]byte{}}
+}
+
+func (r *KeyRegistry) id(b []byte) int {
+	k := string(b)
+	if id, ok := r.keyIDs[k]; ok {
+		return id
+	}
+	id := len(r.keyIDs) + 1
+	r.keyIDs[k] = id
+	r.KeyBytes[id] = append([]byte{}, b...)
+	return id
+}
+
+// IDOf returns the identity of raw key bytes (0 if never seen in a secret).
+func (r *KeyRegistry) IDOf(b []byte) int { return r.keyIDs[string(b)] }
+
+type TrackFactory struct {
+	Secrets  []*TrackSecret
+	Reg      *KeyRegistry
+	Name     string
 	// NewSources keeps every slice handed to New (C10: must be wiped on return).
 	NewSources [][]byte
 	// Fault, if set, is asked before every creation; returning true makes it fail the way
@@ -53,22 +77,18 @@ type TrackFactory struct {
 }
 
 func NewTrackFactory() *TrackFactory {
-	return &TrackFactory{keyIDs: map[string]int{}, KeyBytes: map[int][]byte{}}
+	return &TrackFactory{Reg: NewKeyRegistry()}
 }
 
-func (f *TrackFactory) keyID(b []byte) int {
-	k := string(b)
-	if id, ok := f.keyIDs[k]; ok {
-		return id
-	}
-	id := len(f.keyIDs) + 1
-	f.keyIDs[k] = id
-	f.KeyBytes[id] = append([]byte{}, b...)
-	return id
+// NewTrackFactoryShared shares key identities (and the random stream) with other factories.
+func NewTrackFactoryShared(reg *KeyRegistry, name string) *TrackFactory {
+	return &TrackFactory{Reg: reg, Name: name}
 }
+
+func (f *TrackFactory) keyID(b []byte) int { return f.Reg.id(b) }
 
 // KeyIDOf returns the key identity of raw key bytes (0 if never seen in a secret).
-func (f *TrackFactory) KeyIDOf(b []byte) int { return f.keyIDs[string(b)] }
+func (f *TrackFactory) KeyIDOf(b []byte) int { return f.Reg.IDOf(b) }
 
 var errAlloc = errors.New("doubles: injected secret allocation failure")
 
@@ -102,10 +122,10 @@ func (f *TrackFactory) CreateRandom(size int) (securememory.Secret, error) {
 	buf := make([]byte, 0, size)
 	for len(buf) < size {
 		var in [24]byte
-		binary.LittleEndian.PutUint64(in[:8], f.counter)
+		binary.LittleEndian.PutUint64(in[:8], f.Reg.counter)
 		binary.LittleEndian.PutUint64(in[8:16], f.Seed)
 		copy(in[16:], "trackrnd")
-		f.counter++
+		f.Reg.counter++
 		h := sha256.Sum256(in[:])
 		buf = append(buf, h[:]...)
 	}
